@@ -160,6 +160,8 @@ type world struct {
 	NCons    int      `json:"consumers"`
 	Sessions []uint64 `json:"session_ids"`
 	G        int      `json:"goroutines"`
+	PerG     int      `json:"proofs_per_goroutine_and_step"`
+	Small    bool     `json:"small"`
 	Steps    int      `json:"steps"`
 	accs     []sigs.Account
 	addrs    []string
@@ -171,17 +173,29 @@ func newWorld(seed int64, round int) *world {
 	w := &world{Seed: seed, Round: round}
 	w.E = uint64(5 + rng.Intn(40))
 	w.K = uint64(2 + rng.Intn(3))
-	w.Mm = w.K + 2 + uint64(rng.Intn(5))
+	w.Mm = w.K + 4 + uint64(rng.Intn(4))
 	w.Base = w.E * uint64(1000+rng.Intn(200000))
 	w.Specs = []string{"LAV1"}
-	if rng.Intn(3) > 0 {
+	if rng.Intn(5) < 2 {
 		w.Specs = append(w.Specs, "ETH1")
 	}
 	w.NCons = 2 + rng.Intn(3)
 	// few session ids => equal ids under different consumers, epochs and chains are the norm
 	w.Sessions = [][]uint64{{7}, {7, 8}, {1, 2, 3}, {42, 7, 9000000001}}[rng.Intn(4)]
 	w.G = 8 + rng.Intn(25)
-	w.Steps = 7 + rng.Intn(5)
+	w.PerG = 2 + rng.Intn(2)
+	w.Steps = 7 + rng.Intn(4)
+	// Small worlds: few keys per epoch. Only they get transactions that keep failing until the
+	// retries are exhausted: every exhausted proof costs one badger DropPrefix per DB in the real code
+	// (a 64 MB memtable each, very slow under the race detector), and a failing tx exhausts every
+	// proof that shares the retry table with it.
+	w.Small = rng.Intn(5) < 2
+	if w.Small {
+		w.G = 8 + rng.Intn(3)
+		w.PerG = 1
+		w.NCons = 2 + rng.Intn(2)
+		w.Sessions = [][]uint64{{7}, {7, 8}}[rng.Intn(2)]
+	}
 	kr := sigs.NewZeroReader(seed*7919 + int64(round))
 	for i := 0; i < w.NCons; i++ {
 		acc := sigs.GenerateDeterministicFloatingKey(kr)
@@ -240,6 +254,8 @@ type mockSender struct {
 	bySig    map[string]proofID
 	failLeft map[proofID]int
 	txN      int
+	// steer (directed scenario only): a failing tx reports back once this returns true (bounded wait)
+	steer func(items []txItem) bool
 }
 
 func (m *mockSender) register(id proofID, sig []byte, failK int) {
@@ -281,6 +297,12 @@ func (m *mockSender) TxRelayPayment(ctx context.Context, relays []*pairingtypes.
 	m.txN++
 	m.mu.Unlock()
 	m.sk.emit(event{K: "tx", Clock: m.clock.Load(), Items: items, Fail: fail})
+	if fail && m.steer != nil {
+		for i := 0; i < 20000 && !m.steer(items); i++ {
+			runtime.Gosched()
+		}
+		return errors.New("scripted tx failure")
+	}
 	if fail {
 		// schedule widening only: a failing tx usually lingers a little, so that a concurrent
 		// successful one often (not always) reports back first
@@ -446,14 +468,17 @@ func (d *driver) planProofs(rng *rand.Rand, k pkey, n int, out *[]planned, allow
 		}
 		p := planned{K: k, Cu: cu, Rn: d.nextRn[k], Qos: rng.Intn(2) == 0}
 		d.nextRn[k]++
-		if rng.Intn(100) < 12 {
-			p.FailK = []int{1, 1, 2, 2, 3, 6, 9}[rng.Intn(7)]
+		if r := rng.Intn(100); r < 10 {
+			p.FailK = 1 + rng.Intn(2)
+		} else if r < 13 && d.w.Small {
+			p.FailK = []int{3, 6, 12}[rng.Intn(3)]
 		}
 		*out = append(*out, p)
 	}
 }
 
 type stepOpts struct {
+	scripted  []planned // when set, exactly these proofs are sent (directed scenario)
 	advance   int
 	sends     bool
 	claims    int // 0, 1, or 2 (second one = the delayed update of the previous epoch)
@@ -469,10 +494,10 @@ func (d *driver) step(rng *rand.Rand, o stepOpts) {
 		d.mock.clock.Store(d.clock)
 		d.sk.emit(event{K: "clock", Clock: d.clock})
 	}
-	var all []planned
-	if o.sends {
+	all := o.scripted
+	if o.sends && o.scripted == nil {
 		act := d.w.activeEpochs(d.clock)
-		target := d.w.G * (2 + rng.Intn(2))
+		target := d.w.G * d.w.PerG
 		for len(all) < target && len(act) > 0 {
 			e := act[0]
 			if rng.Intn(3) == 0 {
@@ -843,7 +868,7 @@ func (rr *roundRec) evalLifetime(lt *lifetimeRec) {
 			cls["proof_retries_exhausted_or_more"]++
 		}
 		if n > int(maxSubmissions) {
-			// classify: did a claim of ANOTHER session with the same session id succeed in between?
+			// classify: was a claim of ANOTHER session with the same session id submitted in between?
 			collision := false
 			seen := 0
 			for _, tx := range lt.txs {
@@ -855,9 +880,8 @@ func (rr *roundRec) evalLifetime(lt *lifetimeRec) {
 				}
 				if mine {
 					seen++
-					continue
 				}
-				if seen > 0 && seen < n && !tx.fail {
+				if seen > 0 && seen <= n {
 					for _, it := range tx.items {
 						if it.Key.Sess == id.K.Sess && it.Key != id.K {
 							collision = true
@@ -867,7 +891,7 @@ func (rr *roundRec) evalLifetime(lt *lifetimeRec) {
 			}
 			sig := "no-equal-session-id-in-between"
 			if collision {
-				sig = "retry-table-keyed-by-session-id: successful claim of another session with equal id resets the attempt counter"
+				sig = "retry-table-keyed-by-session-id/claim-of-another-session-with-equal-id-in-between"
 			}
 			rec.violation("proof-submitted-too-often", sig,
 				fmt.Sprintf("proof %s was submitted %d times within one process lifetime (limit 1 + %d retries = %d)", id, n, rewardserver.MaxPaymentRequestsRetiresForSession, maxSubmissions), rr.witness(lt, id.K))
@@ -1193,6 +1217,76 @@ func finishRound(rec *recorder, rr *roundRec, classes map[string]int, label stri
 	}
 }
 
+// runDirectedCollision: the session-id collision case of the statement's quantifier, made deterministic.
+// Consumer 0 has a proof P for session id 7 whose transaction always fails. In every later epoch another
+// consumer's session with the SAME id 7 becomes claimable and its transaction succeeds. The mock lets the
+// failing retry transaction report back after the successful one has been processed (it watches the
+// retry table through the hook view). Everything else is the ordinary driver and the ordinary oracles.
+func runDirectedCollision(rec *recorder, seed int64, classes map[string]int) {
+	w := newWorld(seed, -1)
+	w.Small, w.Specs, w.Sessions, w.K, w.Mm, w.G, w.PerG, w.Steps = true, []string{"LAV1"}, []uint64{7}, 2, 9, 8, 1, 9
+	if w.NCons < 3 {
+		w = newWorldWithConsumers(w, 3)
+	}
+	dir, err := os.MkdirTemp("", "verif-c29-directed-*")
+	if err != nil {
+		panic(err)
+	}
+	defer os.RemoveAll(dir)
+	sk := &sink{}
+	d := newDriver(w, sk, dir)
+	rr := &roundRec{w: w, submittedEver: map[pkey]bool{}, snapEvidence: map[pkey]uint64{}, rec: rec, classes: classes}
+	d.startFresh()
+	d.mock.steer = func(items []txItem) bool {
+		for _, r := range d.srv.VerifRetryTable() {
+			if r.TableKey == 7 {
+				return false // the successful claim of the other session 7 has not been processed yet
+			}
+		}
+		return true
+	}
+	lt := newLifetime(0, "fresh", w, nil, d.clock)
+	rr.lts = append(rr.lts, lt)
+	rng := vrand.Sub(seed, "c29-directed", 0)
+	mk := func(cons int, epoch, cu uint64, failK int) planned {
+		k := pkey{Epoch: epoch, Cons: cons, Spec: "LAV1", Sess: 7}
+		if _, seen := d.nextRn[k]; !seen {
+			d.nextRn[k] = 1
+			d.byEpoch[epoch] = append(d.byEpoch[epoch], k)
+		}
+		p := planned{K: k, Cu: cu, Rn: d.nextRn[k], FailK: failK}
+		d.nextRn[k]++
+		d.lastCu[k] = cu
+		return p
+	}
+	// step 1: P (consumer 0, epoch = clock, always failing)
+	d.step(rng, stepOpts{scripted: []planned{mk(0, d.clock, 10, 1000)}, sends: true, claims: 1})
+	for i := 0; i < int(w.Mm)+2; i++ {
+		// every epoch: one more session 7 of another consumer, sent while its epoch is active
+		d.step(rng, stepOpts{advance: 1, scripted: []planned{}, sends: true, claims: 0})
+		d.step(rng, stepOpts{scripted: []planned{mk(1+i%2, d.clock, 5, 0)}, sends: true, claims: 0})
+		d.step(rng, stepOpts{scripted: []planned{}, sends: true, claims: 1})
+	}
+	lt.events = sk.take()
+	rr.evalLifetime(lt)
+	d.srv.CloseAllDataBases()
+	rec.Evals++
+	classes["directed_session_id_collision_scenarios"]++
+	finishRound(rec, rr, classes, "directed: equal session id under different consumers, one transaction always failing")
+}
+
+func newWorldWithConsumers(w *world, n int) *world {
+	kr := sigs.NewZeroReader(w.Seed*104729 + 17)
+	w.accs, w.addrs = nil, nil
+	for i := 0; i < n; i++ {
+		acc := sigs.GenerateDeterministicFloatingKey(kr)
+		w.accs = append(w.accs, acc)
+		w.addrs = append(w.addrs, acc.Addr.String())
+	}
+	w.NCons = n
+	return w
+}
+
 // ------------------------------------------------------------------ crash tier (thorough)
 
 type childCfg struct {
@@ -1257,7 +1351,7 @@ type crashScenario struct {
 	KillAt int    `json:"kill_at_op,omitempty"`
 }
 
-func runCrashScenario(rec *recorder, seed int64, round int, sc crashScenario, classes map[string]int, outDir string) {
+func runCrashScenario(rec *recorder, seed int64, round int, sc crashScenario, classes map[string]int) {
 	w := newWorld(seed, round)
 	dir, err := os.MkdirTemp("", "verif-c29-crash-*")
 	if err != nil {
@@ -1376,23 +1470,53 @@ func tail(s string, n int) string {
 
 // ------------------------------------------------------------------ worker / parent
 
+func newRecorder() *recorder {
+	return &recorder{Counters: map[string]int{}, seenViol: map[string]int{}}
+}
+
+func (r *recorder) merge(o *recorder, classes map[string]int) {
+	r.Evals += o.Evals
+	r.Nontrivial = append(r.Nontrivial, o.Nontrivial...)
+	for _, s := range o.Samples {
+		if len(r.Samples) < 3 {
+			r.Samples = append(r.Samples, s)
+		}
+	}
+	for k, v := range o.Counters {
+		r.Counters[k] += v
+	}
+	for k, v := range classes {
+		if strings.HasPrefix(k, "max_") {
+			if v > r.Counters[k] {
+				r.Counters[k] = v
+			}
+			continue
+		}
+		r.Counters[k] += v
+	}
+	for _, v := range o.Violations {
+		r.violation(v.Rule, v.Sig, v.Desc, v.Witness)
+	}
+	r.Inconclusive = append(r.Inconclusive, o.Inconclusive...)
+}
+
+type job struct {
+	round int
+	crash *crashScenario
+}
+
 func worker(resultPath string) {
 	run := ev.Start("C29") // only for tier / seed
 	silence()
 	lavarand.SetSpecificSeed(run.Seed)
-	rec := &recorder{Counters: map[string]int{}, seenViol: map[string]int{}}
-	classes := map[string]int{}
-	rounds := run.Pick(36, 400)
-	for r := 0; r < rounds && len(rec.Violations) < 8; r++ {
-		n0 := map[string]int{}
-		for k, v := range classes {
-			n0[k] = v
-		}
-		runRound(rec, run.Seed, r, classes)
-		if classes["out_of_order_lower_proof_rejected"] > n0["out_of_order_lower_proof_rejected"] &&
-			classes["proof_retried"] > n0["proof_retried"] && classes["restart_obligation_claimed"] > n0["restart_obligation_claimed"] {
-			rec.Nontrivial = append(rec.Nontrivial, fmt.Sprintf("round-%d-seed-%d", r, run.Seed))
-		}
+	total := newRecorder()
+	rounds := run.Pick(12, 300)
+	if v, err := strconv.Atoi(os.Getenv("VERIF_C29_DEBUG_ROUNDS")); err == nil && v > 0 {
+		rounds = v // debugging aid only; ./check never sets it
+	}
+	jobs := []job{{round: -1}}
+	for r := 0; r < rounds; r++ {
+		jobs = append(jobs, job{round: r})
 	}
 	if run.Thorough() {
 		var scs []crashScenario
@@ -1403,23 +1527,51 @@ func worker(resultPath string) {
 		}
 		krng := vrand.New(run.Seed, "c29-sigkill")
 		for i := 0; i < 18; i++ {
-			scs = append(scs, crashScenario{KillAt: 5 + krng.Intn(900)})
+			scs = append(scs, crashScenario{KillAt: 5 + krng.Intn(400)})
 		}
-		for i, sc := range scs {
-			if len(rec.Violations) >= 8 {
-				break
-			}
-			n0 := classes["restart_obligation_claimed"]
-			runCrashScenario(rec, run.Seed, 100000+i, sc, classes, filepath.Dir(resultPath))
-			if classes["restart_obligation_claimed"] > n0 {
-				rec.Nontrivial = append(rec.Nontrivial, fmt.Sprintf("crash-%+v-seed-%d", sc, run.Seed))
-			}
+		for i := range scs {
+			jobs = append(jobs, job{round: 100000 + i, crash: &scs[i]})
 		}
 	}
-	for k, v := range classes {
-		rec.Counters[k] += v
+	// rounds are independent (own server, own badger directory, own event log): a few run side by side
+	var mu sync.Mutex
+	var wg sync.WaitGroup
+	next := 0
+	for p := 0; p < 4; p++ {
+		wg.Add(1)
+		go func() {
+			defer wg.Done()
+			for {
+				mu.Lock()
+				if next >= len(jobs) || len(total.Violations) >= 8 {
+					mu.Unlock()
+					return
+				}
+				j := jobs[next]
+				next++
+				mu.Unlock()
+				rec, classes := newRecorder(), map[string]int{}
+				if j.round == -1 {
+					runDirectedCollision(rec, run.Seed, classes)
+				} else if j.crash == nil {
+					runRound(rec, run.Seed, j.round, classes)
+					if classes["out_of_order_lower_proof_rejected"] > 0 && classes["proof_retried"] > 0 && classes["restart_obligation_claimed"] > 0 {
+						rec.Nontrivial = append(rec.Nontrivial, fmt.Sprintf("round-%d-seed-%d", j.round, run.Seed))
+					}
+				} else {
+					runCrashScenario(rec, run.Seed, j.round, *j.crash, classes)
+					if classes["restart_obligation_claimed"] > 0 {
+						rec.Nontrivial = append(rec.Nontrivial, fmt.Sprintf("crash-%+v-seed-%d", *j.crash, run.Seed))
+					}
+				}
+				mu.Lock()
+				total.merge(rec, classes)
+				mu.Unlock()
+			}
+		}()
 	}
-	b, _ := json.Marshal(rec)
+	wg.Wait()
+	b, _ := json.Marshal(total)
 	if err := os.WriteFile(resultPath, b, 0o644); err != nil {
 		fmt.Fprintln(os.Stderr, "worker cannot write result:", err)
 		os.Exit(3)
@@ -1568,7 +1720,7 @@ func TestC29(t *testing.T) {
 			run.Require("obligations after a crash were evaluated", c("restart_obligations_after_crash"))
 		}
 	}
-	floor := run.Pick(12, 150)
+	floor := run.Pick(5, 120)
 	run.Finish("rounds of 8-32 goroutines sending signed proofs in shuffled order (higher, lower, equal-CU duplicates, stragglers after the epoch left the window) for few session ids shared by consumers / epochs / chains, concurrent with synchronous epoch updates (incl. an overlapping delayed update), snapshots and scripted fail-k-times transactions, on the real RewardServer + badger reward DB with in-process abandon-and-reopen restarts (thorough: child processes killed at each crash point x n-th arrival and by SIGKILL at PRNG-chosen op counts). Oracles over the logical-time event log: no claim in the active window / out of chain memory; every claimable key submitted with at least the best CuSum received before the update began; each proof submitted <= 1+3 times per lifetime; SendNewProof results + claimed CuSums linearizable as a max-register (porcupine); DB contents at restart restored and claimed; snapshotted unclaimed proofs present in the DB. A round is non-trivial when in it a lower out-of-order proof was rejected, a failed claim was retried and a restart obligation was claimed; distinct = distinct rounds", floor,
 		"the epoch clock does not move while an epoch update is running (it is advanced between steps)",
 		"'configured number of retries' = MaxPaymentRequestsRetiresForSession (3); a proof = (epoch, consumer, chain, session, CuSum, relay number)",
@@ -1577,4 +1729,3 @@ func TestC29(t *testing.T) {
 		"crash tier: linearizability is not checked for the incarnation that crashed (open operations)")
 }
 
-var _ = strconv.Itoa
